@@ -10,7 +10,7 @@ def run(ctx):
              "compared with Eval(Diff(tree)) computed by TLC (reference interpreter on the derivative TREE for elementary functions)",
         scope="simulation: 1-3 states, 0-2 controls, 0-2 calibrations, 1-3 sensors of 1-3 readings (rectangular), <= 7 grown nodes, 14 operators",
         assumptions=numeric.BASE_ASSUME + ["Diff (Expr.tla) is the symbolic derivative; its tree is evaluated exactly by TLC"],
-        corpus=["/verif/corpus/F1_acos_tanh8.json"])
+        corpus=["/verif/corpus/F1_acos_tanh8.json"], extra_sims=[(("MC_EKF", "MC_C03cal_sim.cfg"), 48)])
 
 
 def replay(ctx, path):
